@@ -83,5 +83,40 @@ def check(rep, tier):
             rep.violation("study-crash %s" % type(e).__name__, "%s (%s) raises %r" % (lab, list(tables) or modes[0], e), dict(run=lab, error=repr(e)))
         finally:
             mp.cpu_count = orig_cpu
+    # ---- histories of one object: a parallel study, then the shelf coefficient / the program / a constant is changed (in memory, and with the
+    #      configuration file no longer matching what the object holds), then another parallel study: rows = single runs of the object as it is NOW ----
+    import os, shutil, yaml
+    for dim in (["homogeneous"] if tier == "quick" else ["homogeneous", "spatial_1D"]):
+        lab = "%s history: async study, change k / opcond / const (file rewritten), async study" % dim
+        try:
+            h, d = (0.01, 0.01) if dim == "homogeneous" else (0.06, 0.05)
+            prog = dict(start=20, end=-50, rate=1 / 60 if dim == "homogeneous" else 2 / 60, holds=[], t_tot=2.5 * 3600 if dim == "homogeneous" else 9000.0, dt=1.0)
+            over = sr.make_over(dim, "shelf", h, d, None)
+            path = os.path.join(impl.scratch(), "c14_hist_%s.yaml" % dim)
+            open(path, "w").write(yaml.safe_dump(over))
+            sn = impl.snowing_mod()
+            S = sn.Snowing(k={"int": 0, "ext": 0, "s0": 50 if dim == "homogeneous" else 300, "s_sigma_rel": 0}, opcond=sr.gen_opcond.build(prog, impl.opcond_mod()), Nrep=3, configPath=path)
+            mp.cpu_count = lambda: 2
+            with impl.quiet(), impl.adversarial_pool():
+                S.run(how="async"); t1, _ = table(S)
+                # change the object in memory: another shelf coefficient, another program, another kinetic constant; the file on disk is rewritten
+                # with something else entirely (the object holds its own constants)
+                S.k = dict(S.k, s0=S.k["s0"] * 0.6)
+                prog2 = dict(prog, rate=prog["rate"] * 1.5)
+                S.opcond = sr.gen_opcond.build(prog2, impl.opcond_mod())
+                S.const["b"] = 27.0
+                open(path, "w").write(yaml.safe_dump(dict(over, kinetics={"a": 22.0, "b": 12.0})))
+                S.run(how="async"); t2, idx2 = table(S)
+                S.run(how="sequential"); t3, _ = table(S)
+            rep.case(lab, nontrivial=True); rep.count("history-studies")
+            if idx2 != [0, 1, 2] or len(t2) != 3 or len(t3) != 3 or not all(same(a, b) for a, b in zip(t2, t3)):
+                rep.violation("history parallel-vs-sequential", "%s: the parallel table after the changes %s differs from the sequential table of the same object %s (first study gave %s)" % (
+                    lab, t2[:1], t3[:1], t1[:1]), dict(run=lab, history=["async", "k, opcond, const changed; file rewritten", "async", "sequential"]))
+            elif all(same(a, b) for a, b in zip(t1, t2)):
+                rep.violation("history stale-study", "%s: the second parallel study reproduces the first one although shelf coefficient, program and a constant were changed" % lab, dict(run=lab))
+        except Exception as e:
+            rep.violation("study-crash %s" % type(e).__name__, "%s raises %r" % (lab, e), dict(run=lab, error=repr(e)))
+        finally:
+            mp.cpu_count = orig_cpu
     if not ok:
         rep.violation("proof-broken", "proof obligations of C14 do not check: " + msg, dict(theorem="props/C14.v", log=msg), found_input=False)
